@@ -74,4 +74,9 @@ CHECKS = {
         technique="snapshot monitors (configured defaults, every previously returned state, every value the cache serves) re-compared after every step of histories with in-place mutating commands and deliberate caller-side mutation of returned data/metadata, plus self-differential comparison with the NoCache reference from pristine defaults",
         text="Seeded histories over mutator / state-variable query families with mutable configured defaults under 9 cache kinds + no cache; every evaluation and every served value compared. Exploration.",
         note="Aliasing is detected through its effect (a later observed change), not by walking object graphs."),
+    "C11": dict(
+        category=_EXPL, design_ref="DESIGN.md section 4, C11",
+        technique="runtime contracts (icontract post-conditions on encode_state_data: decode-back equality, same type, identifier dispatch; on copy_state_data: equality + aliasing walker over mutable objects and object cells) driven by per-pair value generators; (type, extension) pairs discovered by probing",
+        text="Every (registered type, extension) pair that both writes and reads a sample is exercised with tens of thousands of seeded values from its documented domain (adversarial dictionary keys, non-finite floats, nested picklables, frames with mixed columns / missing values / empty / non-default index). Exploration.",
+        note="Lossy renderings (csv/tsv/json/html of frames) excluded; values a non-default format cannot write are counted as unrepresentable."),
 }
